@@ -403,6 +403,10 @@ class WebSocketApp:
                 else:
                     self._callback(self.on_open)
 
+                if not self.sock:
+                    # close() was called from the on_open / on_reconnect callback
+                    return
+
                 dispatcher.read(self.sock.sock, read, check)
             except (
                 WebSocketConnectionClosedException,
